@@ -12,7 +12,7 @@
    * the seenFiles map after a prefix of the sequence maps every inode to the first non-directory
      path carrying it                                                      (seen_after_first). *)
 From Coq Require Import List NArith Bool Lia Sorting.Permutation Sorting.Sorted.
-From FS Require Import Sx Model.Path Model.Stat Model.Walk Proofs.Lex Proofs.PathP.
+From FS Require Import Sx Model.Path Model.Stat Model.Tree Model.Walk Proofs.Lex Proofs.PathP.
 Import ListNotations.
 Open Scope N_scope.
 Open Scope bool_scope.
@@ -602,16 +602,18 @@ Proof.
     rewrite rpr_unfold in Hat. destruct Hat as [E|Hi]; [inversion E; congruence|exact Hi].
 Qed.
 
-Lemma entries_sorted t : wf_tree t -> StronglySorted path_lt (map fst (entries_root (sort_tree t))).
+Lemma entries_root_sorted t : sorted_tree t -> StronglySorted path_lt (map fst (entries_root t)).
 Proof.
-  intros Hwf. rewrite entries_root_rpr, map_map. cbn [fst].
-  pose proof (sort_tree_sorted t Hwf) as HS.
-  destruct (sort_tree t) as [r kids] eqn:E. cbn [t_kids].
+  intros HS. rewrite entries_root_rpr, map_map. cbn [fst].
+  destruct t as [r kids]. cbn [t_kids].
   pose proof (rpr_sorted _ HS) as H. rewrite rpr_unfold in H. inversion H as [|? ? H1 H2]; subst.
   apply (rpr_paths_sorted [] (rpr_kids kids)); auto.
   intros c r' Hi. simpl. split; [eapply rpr_kids_nonnil; eauto|].
   eapply (rpr_nosep (T r kids)); eauto. rewrite rpr_unfold. right. eauto.
 Qed.
+
+Lemma entries_sorted t : wf_tree t -> StronglySorted path_lt (map fst (entries_root (sort_tree t))).
+Proof. intros Hwf. apply entries_root_sorted, sort_tree_sorted, Hwf. Qed.
 
 Theorem walk_sorted_proof t : wf_tree t -> StronglySorted path_lt (map st_path (walk t)).
 Proof. intros Hwf. unfold walk. rewrite scan_paths. apply entries_sorted; auto. Qed.
@@ -752,4 +754,421 @@ Proof.
   assert (Hi1 : In (joinc cs1, r1) (entries_root (sort_tree t))) by (apply entries_in; exists cs1; auto).
   destruct (Hleast _ _ Hi1 Hd1 Hino1) as [Eq|Hlt]; [left|right; exact Hlt].
   eapply node_unique; eauto.
+Qed.
+
+(* ====================================================================================== *)
+(* SubDirFS *)
+
+Lemma mode_symlink_nosock x : mode_is_symlink (N.ldiff x ModeSocket) = mode_is_symlink x.
+Proof.
+  unfold mode_is_symlink, has_bits. f_equal. f_equal.
+  apply N.bits_inj. intros n. rewrite !N.land_spec, N.ldiff_spec.
+  change ModeSymlink with (2 ^ 27). rewrite N.pow2_bits_eqb.
+  destruct (N.eqb_spec 27 n) as [<-|Hn].
+  - change (N.testbit ModeSocket 27) with false. simpl. rewrite !andb_true_r. reflexivity.
+  - rewrite !andb_false_r. reflexivity.
+Qed.
+
+Lemma seen_after_paths pre : forall i q, ilookup i (seen_after [] pre) = Some q -> In q (map fst pre).
+Proof.
+  induction pre as [|[p r] pre IH] using rev_ind; intros i q H; [discriminate|].
+  rewrite seen_after_snoc, mkstat_seen in H. rewrite map_app, in_app_iff. simpl.
+  destruct (is_dir r); [left; eauto|].
+  destruct (N.ltb 1 (l_nlink r)); [destruct (ilookup (l_ino r) (seen_after [] pre)) eqn:E; [left; eauto|]|];
+    unfold iinsert in H; simpl in H; (destruct (N.eqb i (l_ino r)); [inversion H; subst; auto|left; eauto]).
+Qed.
+
+Lemma wf_name_normal n : wf_name n -> normal n.
+Proof. intros (H1 & _ & H3 & H4). repeat split; auto. Qed.
+
+Lemma wf_names_okc cs : cs <> [] -> Forall wf_name cs -> okc cs.
+Proof.
+  intros Hne H. split; auto. split; eapply Forall_impl; try exact H.
+  - apply wf_name_normal.
+  - apply wf_name_nosep.
+Qed.
+
+Lemma join2_wf d cs : wf_name d -> cs <> [] -> Forall wf_name cs -> join2 d (joinc cs) = d ++ sep :: joinc cs.
+Proof.
+  intros Hd Hne Hcs.
+  assert (Hok : okc (d :: cs)) by (apply wf_names_okc; [discriminate|constructor; auto]).
+  destruct (okc_clean _ Hok) as [Hcl _]. rewrite joinc_cons in Hcl by auto.
+  destruct (okc_first_byte cs (wf_names_okc cs Hne Hcs)) as (a & r & E & _).
+  destruct d as [|x d]; [destruct Hd as (Hd & _); congruence|].
+  rewrite E in *. exact Hcl.
+Qed.
+
+Lemma walk_path_shape t st : wf_tree t -> In st (walk t) ->
+  exists cs, cs <> [] /\ Forall wf_name cs /\ st_path st = joinc cs.
+Proof.
+  intros Hwf Hin. destruct (walk_entry _ _ Hin) as (pre & p & r & post & cs & E & -> & Hne & -> & Hat).
+  exists cs. rewrite mkstat_path. repeat split; auto. eapply tree_at_names; eauto.
+Qed.
+
+(* the Linkname of an entry that is not reported as a symlink is empty or the path of an earlier entry *)
+Lemma walk_linkname_shape t st : wf_tree t -> In st (walk t) -> mode_is_symlink (st_mode st) = false ->
+  st_linkname st = [] \/ exists cs0, cs0 <> [] /\ Forall wf_name cs0 /\ st_linkname st = joinc cs0.
+Proof.
+  intros Hwf Hin Hm. destruct (walk_entry _ _ Hin) as (pre & p & r & post & cs & E & -> & Hne & -> & Hat).
+  pose proof (mkstat_fields (joinc cs) r (seen_after [] pre)) as F. cbv zeta in F.
+  destruct F as (_ & F1 & _ & _ & _ & _ & _ & _ & _ & F9).
+  rewrite F1, mode_symlink_nosock in Hm. fold (is_symlink r) in Hm. rewrite F9, Hm.
+  destruct (is_dir r); auto. unfold hl_name.
+  destruct (N.ltb 1 (l_nlink r)); auto.
+  destruct (ilookup (l_ino r) (seen_after [] pre)) as [q|] eqn:El; auto.
+  right. apply seen_after_paths in El. apply in_map_iff in El. destruct El as ([q' r1] & <- & Hi).
+  assert (Hi' : In (q', r1) (entries_root (sort_tree t))) by (rewrite E; apply in_or_app; auto).
+  apply entries_in in Hi'. destruct Hi' as (cs0 & Hne0 & -> & Hat0).
+  exists cs0. repeat split; auto. eapply tree_at_names; eauto.
+Qed.
+
+Lemma sub_rewrite_prefix d t st : wf_name d -> wf_tree t -> In st (walk t) ->
+  join2 d (st_path st) = d ++ sep :: st_path st /\ sub_rewrite d st = prefix_stat d st.
+Proof.
+  intros Hd Hwf Hin.
+  destruct (walk_path_shape _ _ Hwf Hin) as (cs & Hne & Hcs & Hp).
+  assert (Hj : join2 d (st_path st) = d ++ sep :: st_path st) by (rewrite Hp; apply join2_wf; auto).
+  split; auto. unfold sub_rewrite, prefix_stat. rewrite Hj.
+  destruct (st_linkname st) as [|a ln] eqn:El; auto.
+  destruct (mode_is_symlink (st_mode st)) eqn:Em.
+  - cbn [has_prefix is_abs]. rewrite andb_true_r, N.eqb_sym. destruct (N.eqb a sep); reflexivity.
+  - destruct (walk_linkname_shape _ _ Hwf Hin Em) as [E0|(cs0 & Hne0 & Hcs0 & E0)]; [congruence|].
+    rewrite El in E0. rewrite E0. rewrite join2_wf; auto.
+Qed.
+
+Definition sd_ok (d : subdir) : Prop :=
+  wf_name (sd_name d) /\ st_is_dir (sd_stat d) = true /\ wf_tree (sd_tree d).
+
+Lemma walk_sds_blocks l : Forall sd_ok l -> walk_sds l [] [] = (flat_map sd_block l, false).
+Proof.
+  induction l as [|d l IH]; intros H; [reflexivity|].
+  inversion H as [|? ? (Hn & Hd & Hw) H']; subst. cbn [walk_sds flat_map].
+  rewrite Hd. cbn [bytes_eqb negb andb]. rewrite (IH H'). f_equal. unfold sd_block. f_equal. f_equal.
+  change (walk_at (sd_tree d) []) with (walk (sd_tree d)).
+  apply map_ext_in. intros st Hin. destruct (sub_rewrite_prefix _ _ _ Hn Hw Hin) as [-> ->]. reflexivity.
+Qed.
+
+Lemma mem_bytes_in x l : mem_bytes x l = true <-> In x l.
+Proof.
+  induction l as [|y l IH]; simpl; [split; [discriminate|contradiction]|].
+  rewrite orb_true_iff, IH, bytes_eqb_eq. split; intros [H|H]; auto.
+Qed.
+
+Lemma base_wf_name n : wf_name n -> base n = n.
+Proof.
+  intros H. apply (base_joinc [] n). apply wf_names_okc; [discriminate|constructor; auto].
+Qed.
+
+Lemma subdirs_ok_true l : forall seen,
+  Forall (fun d => wf_name (sd_name d)) l -> NoDup (map sd_name l) ->
+  (forall d, In d l -> ~ In (sd_name d) seen) -> subdirs_ok seen l = true.
+Proof.
+  induction l as [|d l IH]; intros seen Hw Hnd Hs; [reflexivity|].
+  inversion Hw; subst. inversion Hnd; subst. cbn [subdirs_ok].
+  rewrite base_wf_name, bytes_eqb_refl by auto.
+  destruct (mem_bytes (sd_name d) seen) eqn:Em.
+  - apply mem_bytes_in in Em. exfalso. eapply Hs; eauto. simpl; auto.
+  - cbn [negb andb]. apply IH; auto. intros d' Hd' [Hin|Hin].
+    + apply H3. rewrite Hin. apply in_map. auto.
+    + eapply Hs; eauto. simpl; auto.
+Qed.
+
+Definition sd_key (d : subdir) : bytes * subdir := (sd_name d, d).
+Definition sd_lt (a b : subdir) : Prop := cmp_bytes (sd_name a) (sd_name b) = Lt.
+
+Lemma isort_sd_perm ds : Permutation (isort_sd ds) ds.
+Proof.
+  unfold isort_sd. eapply perm_trans; [apply Permutation_map, isort_kids_perm|].
+  rewrite map_map. simpl. rewrite map_id. apply Permutation_refl.
+Qed.
+
+Lemma isort_sd_sorted ds : NoDup (map sd_name ds) -> StronglySorted sd_lt (isort_sd ds).
+Proof.
+  intros Hnd. unfold isort_sd.
+  eapply SS_map; [|apply isort_kids_sorted; rewrite map_map; exact Hnd].
+  intros [n1 d1] [n2 d2] H1 H2 Hlt. unfold name_lt in Hlt. simpl in *.
+  apply (proj1 (isort_kids_in _ _)) in H1, H2. apply in_map_iff in H1, H2.
+  destruct H1 as (? & E1 & _), H2 as (? & E2 & _). inversion E1; inversion E2; subst.
+  unfold sd_lt. rewrite <- cmpb_is_cmp_bytes. exact Hlt.
+Qed.
+
+Lemma block_paths d : wf_name (sd_name d) ->
+  map fst (sd_block d) = map (fun cr => joinc ([sd_name d] ++ fst cr)) (rpr (sort_tree (sd_tree d))).
+Proof.
+  intros Hn. unfold sd_block. cbn [map fst]. rewrite map_map. cbn [fst].
+  rewrite <- (map_map st_path (fun p => sd_name d ++ sep :: p)).
+  unfold walk. rewrite scan_paths, entries_root_rpr, map_map. cbn [fst].
+  destruct (sort_tree (sd_tree d)) as [r kids]. rewrite rpr_unfold. cbn [map fst t_kids app joinc]. f_equal.
+  rewrite map_map. apply map_ext_in. intros [c r'] Hi. cbn [fst].
+  destruct c as [|c0 c]; [exfalso; eapply rpr_kids_nonnil; eauto|reflexivity].
+Qed.
+
+Lemma block_sorted d : sd_ok d -> StronglySorted path_lt (map fst (sd_block d)).
+Proof.
+  intros (Hn & _ & Hw). rewrite block_paths by auto.
+  pose proof (sort_tree_sorted _ Hw) as HS.
+  apply rpr_paths_sorted; [apply rpr_sorted; auto|].
+  intros c r Hi. split; [discriminate|]. constructor; [apply wf_name_nosep; auto|]. eapply rpr_nosep; eauto.
+Qed.
+
+Lemma block_shape d a : sd_ok d -> In a (map fst (sd_block d)) ->
+  exists c, a = joinc (sd_name d :: c) /\ Forall nosep (sd_name d :: c).
+Proof.
+  intros (Hn & _ & Hw) Hi. rewrite block_paths in Hi by auto. apply in_map_iff in Hi.
+  destruct Hi as ([c r] & <- & Hi). exists c. split; [reflexivity|].
+  constructor; [apply wf_name_nosep; auto|]. eapply rpr_nosep; eauto. apply sort_tree_sorted; auto.
+Qed.
+
+Lemma blocks_sorted l : StronglySorted sd_lt l -> Forall sd_ok l ->
+  StronglySorted path_lt (map fst (flat_map sd_block l)).
+Proof.
+  induction l as [|d l IH]; intros HS Hok; [constructor|].
+  inversion HS as [|? ? HS' Hlt]; subst. inversion Hok as [|? ? Hd Hok']; subst.
+  cbn [flat_map]. rewrite map_app. apply SS_app; auto.
+  - apply block_sorted; auto.
+  - intros a b Ha Hb. destruct (block_shape _ _ Hd Ha) as (ca & -> & Hna).
+    rewrite map_flat_map in Hb. apply in_flat_map in Hb. destruct Hb as (d2 & Hi2 & Hb).
+    rewrite Forall_forall in Hok', Hlt.
+    destruct (block_shape _ _ (Hok' _ Hi2) Hb) as (cb & -> & Hnb).
+    unfold path_lt. rewrite compare_path_joinc by (auto; discriminate).
+    rewrite lex_cons. specialize (Hlt _ Hi2). unfold sd_lt in Hlt.
+    rewrite cmpb_is_cmp_bytes, Hlt. reflexivity.
+Qed.
+
+Theorem subdir_walk_prefixed_proof ds : sd_wf ds ->
+  walk_subdirs ds [] = Some (flat_map sd_block (isort_sd ds), false)
+  /\ Permutation (isort_sd ds) ds
+  /\ StronglySorted (fun a b => cmp_bytes (sd_name a) (sd_name b) = Lt) (isort_sd ds)
+  /\ StronglySorted path_lt (map fst (flat_map sd_block (isort_sd ds))).
+Proof.
+  intros [Hok Hnd].
+  pose proof (isort_sd_perm ds) as Hp.
+  assert (Hok' : Forall sd_ok (isort_sd ds)).
+  { apply Forall_forall. intros d Hd. rewrite Forall_forall in Hok. apply Hok. eapply Permutation_in; eauto. }
+  assert (Hnd' : NoDup (map sd_name (isort_sd ds))).
+  { eapply Permutation_NoDup; [apply Permutation_sym, Permutation_map; exact Hp|exact Hnd]. }
+  pose proof (isort_sd_sorted ds Hnd) as HS.
+  repeat split; auto.
+  - unfold walk_subdirs. rewrite subdirs_ok_true; auto.
+    + cbn [cut_sep]. rewrite walk_sds_blocks; auto.
+    + eapply Forall_impl; [|exact Hok']. intros d (H & _). exact H.
+  - apply blocks_sorted; auto.
+Qed.
+
+(* ====================================================================================== *)
+(* Walking a sub-target *)
+
+Lemma sort_tree_wf t : wf_tree t -> wf_tree (sort_tree t).
+Proof.
+  induction t as [r kids IH] using tree_ind'. intros Hwf.
+  inversion Hwf as [? ? Hd Hn Hnd Hk]; subst. rewrite sort_tree_unfold. constructor.
+  - intros H. rewrite (Hd H). reflexivity.
+  - apply Forall_forall. intros nk Hi. apply (proj1 (isort_kids_in _ _)) in Hi. apply in_map_iff in Hi.
+    destruct Hi as ([n k] & <- & Hi). rewrite Forall_forall in Hn. apply (Hn (n, k)); auto.
+  - eapply Permutation_NoDup; [apply Permutation_sym, Permutation_map, isort_kids_perm|].
+    rewrite map_fst_sort_kid. exact Hnd.
+  - apply Forall_forall. intros nk Hi. apply (proj1 (isort_kids_in _ _)) in Hi. apply in_map_iff in Hi.
+    destruct Hi as ([n k] & <- & Hi). rewrite Forall_forall in IH, Hk. apply (IH (n, k)); auto;
+    apply (Hk (n, k)); auto.
+Qed.
+
+Lemma find_kid_some n kids k : find_kid n kids = Some k -> In (n, k) kids.
+Proof.
+  induction kids as [|[m k'] kids IH]; simpl; intros H; [discriminate|].
+  destruct (bytes_eqb n m) eqn:E; auto. apply bytes_eqb_eq in E. inversion H; subst. auto.
+Qed.
+
+Lemma find_kid_in n kids k : In (n, k) kids -> exists k', find_kid n kids = Some k'.
+Proof.
+  induction kids as [|[m k'] kids IH]; simpl; intros H; [contradiction|].
+  destruct (bytes_eqb n m) eqn:E; eauto. destruct H as [H|H]; auto.
+  inversion H; subst. rewrite bytes_eqb_refl in E. discriminate.
+Qed.
+
+Lemma lookup_at cs : forall t k, wf_tree t -> lookup t cs = Some k ->
+  wf_tree k /\ forall c r, tree_at k c r <-> tree_at t (cs ++ c) r.
+Proof.
+  induction cs as [|n cs IH]; intros t k Hwf H; simpl in H.
+  - inversion H; subst. split; auto. reflexivity.
+  - destruct t as [r0 kids]. simpl in H. destruct (find_kid n kids) as [k1|] eqn:Ef; [|discriminate].
+    apply find_kid_some in Ef. inversion Hwf as [? ? _ _ Hnd Hk]; subst.
+    rewrite Forall_forall in Hk. destruct (IH k1 k (Hk _ Ef) H) as [Hwk Hiff]. split; auto.
+    intros c r. rewrite Hiff. simpl. rewrite tree_at_cons_inv. split.
+    + intros Hat. eauto.
+    + intros (k' & Hi & Hat). assert (k' = k1) by (eapply NoDup_fst_fun; eauto). subst. exact Hat.
+Qed.
+
+Lemma lookup_some cs : forall t r, wf_tree t -> tree_at t cs r -> exists k, lookup t cs = Some k.
+Proof.
+  induction cs as [|n cs IH]; intros t r Hwf H; simpl; eauto.
+  destruct t as [r0 kids]. apply tree_at_cons_inv in H. destruct H as (k & Hi & H). simpl.
+  destruct (find_kid_in _ _ _ Hi) as [k' Ef]. rewrite Ef. apply find_kid_some in Ef.
+  inversion Hwf as [? ? _ _ Hnd Hk]; subst. assert (k' = k) by (eapply NoDup_fst_fun; eauto). subst.
+  rewrite Forall_forall in Hk. eapply IH; eauto. apply (Hk (n, k)); auto.
+Qed.
+
+Lemma lookup_sorted cs : forall t k, sorted_tree t -> lookup t cs = Some k -> sorted_tree k /\ Forall nosep cs.
+Proof.
+  induction cs as [|n cs IH]; intros t k HS H; simpl in H.
+  - inversion H; subst. auto.
+  - destruct t as [r0 kids]. simpl in H. destruct (find_kid n kids) as [k1|] eqn:Ef; [|discriminate].
+    apply find_kid_some in Ef. inversion HS as [? ? _ Hn Hk]; subst. rewrite Forall_forall in Hn, Hk.
+    destruct (IH k1 k (Hk _ Ef) H) as [H1 H2]. split; auto. constructor; auto. apply (Hn _ Ef).
+Qed.
+
+Theorem walk_at_sub_proof t target : wf_tree t ->
+  target_comps target <> [] ->
+  ((forall r, ~ tree_at t (target_comps target) r) -> walk_at t target = []) /\
+  (forall r0, tree_at t (target_comps target) r0 ->
+     StronglySorted path_lt (map st_path (walk_at t target)) /\
+     (forall p, In p (map st_path (walk_at t target)) <->
+                exists c r, p = joinc (target_comps target ++ c) /\ tree_at t (target_comps target ++ c) r) /\
+     NoDup (map st_path (walk_at t target))).
+Proof.
+  intros Hwf Hne. unfold walk_at. remember (target_comps target) as cs eqn:Ecs. clear Ecs.
+  destruct cs as [|c0 cs']; [congruence|]. remember (c0 :: cs') as cs.
+  pose proof (sort_tree_wf t Hwf) as Hwfs. pose proof (sort_tree_sorted t Hwf) as Hss. split.
+  - intros Hno. destruct (lookup (sort_tree t) cs) as [k|] eqn:El; auto.
+    exfalso. destruct (lookup_at _ _ _ Hwfs El) as [_ Hiff].
+    apply (Hno (t_rec k)). apply sort_tree_at. rewrite <- (app_nil_r cs). apply Hiff. apply tree_at_nil_inv. reflexivity.
+  - intros r0 Hat. apply sort_tree_at in Hat. destruct (lookup_some _ _ _ Hwfs Hat) as [k El]. rewrite El.
+    destruct (lookup_at _ _ _ Hwfs El) as [Hwk Hiff]. destruct (lookup_sorted _ _ _ Hss El) as [Hsk Hns].
+    rewrite scan_paths, entries_node_joinc, map_map by auto. cbn [fst].
+    assert (HS : StronglySorted path_lt (map (fun cr => joinc (cs ++ fst cr)) (rpr k))).
+    { apply rpr_paths_sorted; [apply rpr_sorted; auto|]. intros c r Hi. split.
+      - subst cs. discriminate.
+      - apply Forall_app. split; auto. eapply rpr_nosep; eauto. }
+    split; [exact HS|]. split; [|eapply SS_NoDup; [apply path_lt_irrefl|exact HS]].
+    intros p. rewrite in_map_iff. split.
+    + intros ([c r] & <- & Hi). exists c, r. split; auto. apply sort_tree_at, Hiff, rpr_tree_at. exact Hi.
+    + intros (c & r & -> & Hat'). exists (c, r). split; auto. apply rpr_tree_at, Hiff, sort_tree_at. exact Hat'.
+Qed.
+
+(* ====================================================================================== *)
+(* The shared view model (Model/Tree.v): walk_root of a view whose sibling lists are strictly
+   sorted bytewise by name is strictly ascending in protocol path order. *)
+
+Section NodeInd.
+  Variable P : node -> Prop.
+  Hypothesis HN : forall name st content kids, Forall P kids -> P (Node name st content kids).
+  Fixpoint node_ind' (n : node) : P n :=
+    match n with
+    | Node a s c kids =>
+      HN a s c kids
+         ((fix go (l : list node) : Forall P l :=
+             match l with
+             | [] => Forall_nil _
+             | k :: l' => Forall_cons k (node_ind' k) (go l')
+             end) kids)
+    end.
+End NodeInd.
+
+Definition vname_lt (a b : node) : Prop := cmp_bytes (node_name a) (node_name b) = Lt.
+
+(* names non-empty and without separator, siblings strictly ascending bytewise (what MemFS /
+   os.ReadDir order is) *)
+Inductive wf_vnode : node -> Prop :=
+| wf_vn name st c kids :
+    name <> [] -> ~ In sep name -> StronglySorted vname_lt kids -> Forall wf_vnode kids ->
+    wf_vnode (Node name st c kids).
+Definition wf_view (roots : list node) : Prop := StronglySorted vname_lt roots /\ Forall wf_vnode roots.
+
+Definition dummy_rec : lrec :=
+  {| l_mode := 0; l_uid := 0; l_gid := 0; l_size := 0; l_mtime := 0; l_rdev := 0; l_ino := 0; l_nlink := 0;
+     l_target := []; l_xattrs := [] |}.
+Fixpoint tok (n : node) : bytes * tree :=
+  match n with Node name _ _ kids => (name, T dummy_rec (map tok kids)) end.
+
+Lemma tok_fst n : fst (tok n) = node_name n.
+Proof. destruct n; reflexivity. Qed.
+
+Lemma walk_node_unfold dir name st c kids :
+  walk_node dir (Node name st c kids) =
+  (set_path st (child_path dir name), c) :: walk_forest (child_path dir name) kids.
+Proof.
+  cbn [walk_node]. f_equal. induction kids as [|k kids IH]; [reflexivity|]. cbn [walk_forest]. rewrite <- IH. reflexivity.
+Qed.
+
+Definition vpath (e : entry) : bytes := st_path (fst e).
+
+Lemma child_path_nonempty dir name : name <> [] -> child_path dir name <> [].
+Proof. unfold child_path. destruct dir; auto. discriminate. Qed.
+
+Lemma view_node_paths n : wf_vnode n -> forall dir,
+  map vpath (walk_node dir n) = map fst (entries_node (child_path dir (node_name n)) (snd (tok n))).
+Proof.
+  induction n as [name st c kids IH] using node_ind'. intros Hwf dir.
+  inversion Hwf as [? ? ? ? Hne _ _ Hk]; subst.
+  rewrite walk_node_unfold. cbn [tok snd node_name entries_node map fst]. f_equal.
+  pose proof (child_path_nonempty dir name Hne) as Hp. remember (child_path dir name) as p. clear Heqp Hwf.
+  induction kids as [|k kids IHk]; [reflexivity|].
+  inversion IH as [|? ? IH1 IH2]; subst. inversion Hk as [|? ? Hk1 Hk2]; subst.
+  cbn [walk_forest map flat_map]. rewrite !map_app. rewrite (IHk IH2 Hk2). f_equal.
+  rewrite (IH1 Hk1 p). destruct (tok k) as [m t] eqn:E.
+  assert (m = node_name k) by (rewrite <- tok_fst, E; reflexivity). subst m. cbn [snd].
+  unfold child_path. destruct p; [congruence|reflexivity].
+Qed.
+
+Lemma view_forest_paths roots : Forall wf_vnode roots ->
+  map vpath (walk_root roots) = map fst (entries_root (T dummy_rec (map tok roots))).
+Proof.
+  unfold walk_root, entries_root. cbn [t_kids].
+  induction roots as [|k roots IH]; intros H; [reflexivity|]. inversion H; subst.
+  cbn [walk_forest map flat_map]. rewrite !map_app, IH by auto. f_equal.
+  rewrite view_node_paths by auto. destruct (tok k) as [m t] eqn:E.
+  assert (m = node_name k) by (rewrite <- tok_fst, E; reflexivity). subst m. reflexivity.
+Qed.
+
+Lemma tok_sorted_list l :
+  StronglySorted vname_lt l -> Forall (fun k => ~ In sep (node_name k)) l ->
+  Forall (fun k => sorted_tree (snd (tok k))) l ->
+  sorted_tree (T dummy_rec (map tok l)).
+Proof.
+  intros HS Hn Hk. constructor.
+  - eapply SS_map; [|exact HS]. intros a b _ _ Hab. unfold name_lt, vname_lt in *.
+    rewrite !tok_fst, cmpb_is_cmp_bytes. exact Hab.
+  - apply Forall_forall. intros nk Hi. apply in_map_iff in Hi. destruct Hi as (k & <- & Hi).
+    rewrite tok_fst. rewrite Forall_forall in Hn. apply Hn; auto.
+  - apply Forall_forall. intros nk Hi. apply in_map_iff in Hi. destruct Hi as (k & <- & Hi).
+    rewrite Forall_forall in Hk. apply Hk; auto.
+Qed.
+
+Lemma wf_vnode_nosep k : wf_vnode k -> ~ In sep (node_name k).
+Proof. intros H. inversion H; subst. assumption. Qed.
+
+Lemma tok_sorted n : wf_vnode n -> sorted_tree (snd (tok n)).
+Proof.
+  induction n as [name st c kids IH] using node_ind'. intros Hwf.
+  inversion Hwf as [? ? ? ? _ _ HS Hk]; subst. cbn [tok snd]. apply tok_sorted_list; auto.
+  - eapply Forall_impl; [|exact Hk]. apply wf_vnode_nosep.
+  - rewrite Forall_forall in *. intros k Hi. apply IH; auto.
+Qed.
+
+Theorem view_walk_sorted_proof roots : wf_view roots ->
+  StronglySorted path_lt (map (fun e => st_path (fst e)) (walk_root roots))
+  /\ NoDup (map (fun e => st_path (fst e)) (walk_root roots)).
+Proof.
+  intros [HS Hk].
+  assert (H : StronglySorted path_lt (map vpath (walk_root roots))).
+  { rewrite view_forest_paths by auto. apply entries_root_sorted. apply tok_sorted_list; auto.
+    - eapply Forall_impl; [|exact Hk]. apply wf_vnode_nosep.
+    - eapply Forall_impl; [|exact Hk]. apply tok_sorted. }
+  split; [exact H|]. eapply SS_NoDup; [apply path_lt_irrefl|exact H].
+Qed.
+
+(* ---------- the executable sortedness check is the predicate of walk_sorted ---------- *)
+Lemma all_lt_spec p l : all_lt p l = true <-> Forall (path_lt p) l.
+Proof.
+  induction l as [|q l IH]; simpl; [split; auto|].
+  rewrite andb_true_iff, IH. unfold path_ltb, path_lt. split.
+  - intros [H1 H2]. constructor; auto. destruct (compare_path p q); auto; discriminate.
+  - intros H. inversion H; subst. split; auto. rewrite H2. reflexivity.
+Qed.
+
+Lemma sorted_b_spec l : sorted_b l = true <-> StronglySorted path_lt l.
+Proof.
+  induction l as [|p l IH]; simpl; [split; auto; constructor|].
+  rewrite andb_true_iff, IH, all_lt_spec. split.
+  - intros [H1 H2]. constructor; auto.
+  - intros H. inversion H; subst. auto.
 Qed.
